@@ -38,7 +38,7 @@ GlmBadLen(o) == o.kind = "GLM" /\ (o.cfg[4] = 9 \/ o.cfg[5] = 9)
 
 FitKey(o, data, arg) == <<o.kind, o.cfg, data, arg>>
 ObsKey(o)            == <<"obs", o.kind, o.cfg, o.src, o.fitkey>>
-PredCfg(o)           == IF o.kind = "GLM" THEN <<o.cfg[1], o.cfg[5]>> ELSE <<>>      \* family and offsets
+PredCfg(o)           == IF o.kind = "GLM" THEN <<o.cfg[1], o.cfg[5]>> ELSE o.cfg     \* GLM: family and offsets; AR / Poly: order / length
 PredKey(o, x, n)     == <<"pred", o.kind, PredCfg(o), o.src, o.fitkey, x, n>>
 
 \* successor of a setter: field i of the configuration takes code v; i = 0 hands in coefficients
